@@ -166,6 +166,13 @@ func (f *frame) siteClauses(in ssa.Instruction, x *ssa.Call, cc *ssa.CallCommon,
 			if g := f.safeEval(env, site.C); g != nil {
 				f.check("assert", f.oblName(fmt.Sprintf("call#%d(%s)/assert%s", ord, key, clauseTag(site.C, 0))), pc, g, in.Pos(), site.C)
 			}
+		case "interference":
+			for _, it := range strings.Split(site.Ghost, ",") {
+				for _, h := range f.c.resolveHeapNames(strings.TrimSpace(it), f.fn) {
+					f.c.havocHeap(st, h)
+				}
+			}
+			f.c.note("INTERFERENCE point in " + funcKey(f.fn) + " at " + key + ": other goroutines may change " + site.Ghost + " while the call runs (havocked)")
 		case "assume":
 			if g := f.safeEval(env, site.C); g != nil {
 				f.c.note("ASSUMED at call site in " + funcKey(f.fn) + ": " + site.C.Text)
